@@ -16,7 +16,7 @@ FO = 'src/operator/mod.rs'
 FBIN = 'src/operator/start/binary.rs'
 FN = 'src/network/mod.rs'
 ASSUMPTIONS = [
-    "JoinKeyedOuter (the left / outer keyed-stream joins: the same add / side-ended logic as JoinLocalHash, written inline) is NOT under contract",
+    "JoinKeyedOuter::process_item: the element arms are under a full contract; for the end arms only the dropped stores / key sets and `tuples are only appended` are decided, not WHICH unmatched elements are padded (HashMap::drain in an arbitrary order: the per-key argument of unit hash_join was not ported); JoinKeyedOuter::next is not under contract; the per-side counters (logging only) stay below 2^64 (precondition)",
     "std HashMap<K, Vec<V>, CoordHasherBuilder> by its map view (KMap): get, `.entry(k).or_default()` -> entry_or_default(k), clear, is_empty; Key equality is spec equality; Clone yields an equal value",
     "V-ITER: `for x in v { S }` over a `&Vec` -> index loop (S verbatim)",
     "R-PROTO-BIN (environment): the two-input start delivers no timestamped elements (the operator panics on them by design), elements of a side only before that side's end marker, FlushAndRestart only after both end markers (then both stores are empty: the asserts at FlushAndRestart are proved under the invariant `a store is empty once it is not needed`)",
